@@ -87,6 +87,8 @@ def elf_name_ok(prefix, num, observed, libtables, machine):
         return False
     for t in libtables:
         for k, v in t.items():
-            if v == num and isinstance(k, str) and k.startswith(prefix) and known(k) and applicable(k, prefix, machine):
-                return False      # the library has a registry-confirmed, applicable name but reported the raw code
+            if v == num and isinstance(k, str) and k.startswith(prefix) and (known(k) or regnames) and applicable(k, prefix, machine):
+                # the library has an applicable name that the registries confirm (under this or another spelling:
+                # SHT_AMD64_UNWIND / SHT_X86_64_UNWIND) but reported the raw code
+                return False
     return True
